@@ -368,6 +368,9 @@ bool splinetable<Alloc>::read_fits_core(fitsfile* fits, const std::string& fileP
 		//as a negative ORDER value read into the unsigned order array.)
 		if(uint64_t(nknots_temp) < 2*uint64_t(order[i])+2)
 			throw std::runtime_error("Invalid number of knots ("+std::to_string(nknots_temp)+") in dimension "+std::to_string(i)+": fewer than 2*order+2 for spline order "+std::to_string(order[i]));
+		//The coefficient array must have exactly one entry per basis function
+		if(naxes[i] != uint64_t(nknots_temp)-order[i]-1)
+			throw std::runtime_error("Invalid number of knots ("+std::to_string(nknots_temp)+") in dimension "+std::to_string(i)+": does not match coefficient array size "+std::to_string(naxes[i])+" and spline order "+std::to_string(order[i]));
 		nknots[i]=nknots_temp;
 		
 		//Allow spline evaluations to run off the ends of the
